@@ -82,6 +82,7 @@ pub fn child(name: &str, args: &[String]) -> Option<i32> {
         "c02" => c02::child(args),
         "c11sweep" => c11::child_sweep(args),
         "c11exit" => c11::child_exit(),
+        "c11deep" => c11::child_deep(),
         "c16" => c16::child(args),
         "c16one" => c16::child_one(args),
         "c18" => c18::child(args),
